@@ -55,6 +55,11 @@ def standard_run(ck, P, replay_cases=None):
                                   env_extra=getattr(P, "ENV", None))[0]
                 if hasattr(P, "impl_view"):
                     got = P.impl_view(k["witness_case"], got)
+                wop = k["witness_case"].split(" ", 1)[0]
+                if wop in (getattr(P, "CANON", None) or {}):
+                    got = P.CANON[wop](got)
+                if k.get("witness_projected") and wop in (getattr(P, "PROJ", None) or {}):
+                    got = P.PROJ[wop](got)
                 if got == k["witness_impl"]:
                     ck.known_hits.setdefault(k["id"], k["witness_case"])
                 elif got == k.get("witness_spec"):
